@@ -75,10 +75,10 @@ fn on_dealloc(addr: usize, size: usize) {
         return;
     }
     let hit = crate::hal::try_with(|h| {
-        let mut found: Vec<(u64, usize, usize)> = vec![];
+        let mut found: Vec<(u64, usize, usize, bool)> = vec![];
         for s in h.shares.iter() {
             if s.live && s.vaddr < addr + size && addr < s.vaddr + s.len && s.len > 0 {
-                found.push((s.paddr, s.vaddr, s.len));
+                found.push((s.paddr, s.vaddr, s.len, s.dir != crate::hal::Dir::ToDevice));
             }
         }
         found
@@ -88,14 +88,14 @@ fn on_dealloc(addr: usize, size: usize) {
             let dev = DEV.try_with(|d| d.try_borrow().ok().and_then(|d| d.clone())).ok().flatten();
             if let Some(dev) = dev {
                 if let Ok(d) = dev.try_borrow() {
-                    for (paddr, vaddr, len) in found {
+                    for (paddr, vaddr, len, writable) in found {
                         // Which live queue has a descriptor pointing into this share?
                         for (qi, q) in d.queues.iter().enumerate() {
                             if !d.live_on(qi) {
                                 continue;
                             }
                             if queue_references(q.a, paddr, len) {
-                                let msg = format!("heap range {:#x}+{} freed while buffer {:#x}+{} is still posted on queue {} of a live device", addr, size, vaddr, len, qi);
+                                let msg = format!("heap range {:#x}+{} freed while {} buffer {:#x}+{} is still posted on queue {} of a live device", addr, size, if writable { "device-writable" } else { "device-readable" }, vaddr, len, qi);
                                 let _ = HITS.try_with(|h| {
                                     if let Ok(mut h) = h.try_borrow_mut() {
                                         if h.len() < 8 {
